@@ -39,6 +39,7 @@ ASSUMPTIONS = [
     "HTTP errors / malformed payloads are not modelled (the property defines no behaviour under them); the server links pages through _links.next.href relative to the base url",
     "query parameters are compared as a parsed multiset (name=value), not as a literal string",
     "zone rules: the reference uses the system tz database through zoneinfo, the client pytz (both must describe the same instants)",
+    "longchain block: one chain of 1200-1500 (thorough: up to 6000) one-session pages, some of them empty, through the time-series endpoint",
     "interleave block: 2-3 generators of one DataClient advanced in every distinct order of next() calls (capped at 1500 / 20000 orders per page menu, the cap is reported)",
 ]
 CHUNK = 4
@@ -87,6 +88,8 @@ def space(tier, seed):
         for comp in compositions(n, b["max_pages"]):
             items.append({"block": "pages", "sizes": list(comp)})
     items.append({"block": "bytime"})
+    for n, every in ((1500, 0), (1200, 7)) + (((6000, 0), (5000, 3)) if tier == "thorough" else ()):
+        items.append({"block": "longchain", "pages": n, "empty_every": every})
     items.append({"block": "interleave", "cap": 1500 if tier == "quick" else 20000})
     for z in ZONES:
         items.append({"block": "times", "zone": z, "tier": tier})
@@ -561,8 +564,42 @@ def check_dt(got, instant, ztz, rep, zone, stats, where, ctx=None):
     return True
 
 
+def run_longchain(item, only=None):
+    """one very long chain of pages (a time-series query serves ONE session per page): every link is followed, whatever
+    the length of the chain - beyond any fixed depth of the client's own call stack"""
+    viol, stats = [], {"n": 1, "states": [], "out": set(), "nt": True}
+    n, every = item["pages"], item["empty_every"]
+    pages, docs = [], []
+    for i in range(n):
+        if every and i % every == every - 1:
+            pages.append([])
+        else:
+            d = mkdoc(len(docs))
+            docs.append(d)
+            pages.append([d])
+    server = FakeServer(pages, base=BASE)
+    got = []
+    try:
+        with owned_requests(server):
+            for d in DataClient("tok-123").get_sessions("jpl", timeseries=True):
+                got.append(d.get("_id"))
+                if len(got) > len(docs) + 3:
+                    break
+    except Exception as exc:
+        guard(exc)
+        viol.append(("longchain:exception:%s" % type(exc).__name__, "a chain of %d pages: get_sessions raised %r after %d of %d sessions (%d requests)" % (n, exc, len(got), len(docs), len(server.log)), len(got), len(docs), None))
+        return viol, stats
+    stats["states"].append(("longchain", n, len(server.log), len(got)))
+    stats["out"].add(("longchain", len(got) == len(docs)))
+    if got != [d["_id"] for d in docs]:
+        viol.append(("longchain:items", "a chain of %d pages: %d sessions yielded, the server holds %d" % (n, len(got), len(docs)), len(got), len(docs), None))
+    if len(server.log) != n:
+        viol.append(("longchain:requests", "a chain of %d pages: %d requests sent" % (n, len(server.log)), len(server.log), n, None))
+    return viol, stats
+
+
 def execute(item, only=None):
-    return {"pages": run_pages, "bytime": run_bytime, "times": run_times, "interleave": run_interleave, "zonepair": run_zonepair}[item["block"]](item, only)
+    return {"longchain": run_longchain, "pages": run_pages, "bytime": run_bytime, "times": run_times, "interleave": run_interleave, "zonepair": run_zonepair}[item["block"]](item, only)
 
 
 def run(item):
